@@ -50,11 +50,13 @@ T = {
          "Theorems bound the number of surviving identities whose physical slot changes; correspondence compares the physical index (through verif hooks) of every element before/after each call with the model for every layout N<=5 (thorough N<=8) and evaluates the bound on the implementation.", "6/C20"),
 }
 
+OTHER_LEVEL = {"C17"}
+T["C17"] = ("theorems on allocation events of the model + allocation-counter correspondence under a counting global allocator + no_std/alloc builds of the working tree",
+            "Theorems: no returning call changes the capacity or emits an allocation event except to_vec (exactly one, when non-empty). What decides the property on the code: under a counting global allocator every returning call of the case space performs exactly the number of allocations the model predicts; the crate is built with --no-default-features and with only the alloc feature. cfg-conditional compilation and the allocator are observed, not modelled; boxed() is not part of the modelled operation language.", "6/C17")
+
 SPECIAL = {
  "C15": ("other", "translator (syn) regenerating type definitions/signatures into Coq + computational theorems on variance/auto traits + rustc witness programs",
          "Type definitions, impl headers and public signatures are regenerated from src/*.rs into TypesGen.v on every run; theorems computed on those closed terms give variance, Send/Sync conditions, borrow modes, constness; one witness program per contract is compiled against the working tree and rustc's verdict must equal the model's prediction.", "6/C15"),
- "C17": ("other", "allocation-counter correspondence under a counting global allocator + no_std/alloc builds of the working tree",
-         "The model's allocation events (only boxed/to_vec) are compared with the real allocation count per call under a counting global allocator on C01's case space; the crate is built with --no-default-features and with only alloc.", "6/C17"),
 }
 
 NOT_YET = {
@@ -80,7 +82,7 @@ def main():
             "evidence_file": "/verif/evidence/%s.json" % pid,
             "replay_cmd_template": "./check %s --replay {path}" % pid,
             "engine": "coq-proof+correspondence",
-            "level_claimed": {"category": "proof", "text": text, "design_ref": "DESIGN.md section " + ref},
+            "level_claimed": {"category": "other" if pid in OTHER_LEVEL else "proof", "text": text, "design_ref": "DESIGN.md section " + ref},
             "level_note": NOTE,
             "technique": "Coq 8.16 machine-checked " + tech,
         })
